@@ -25,9 +25,9 @@ let run (path : string) =
   let case = ref "" and step = ref 0 and dead = ref false in
   let p : pstate ref = ref pinit and gs : gstore ref = ref [] in
   let case_active = ref false and case_wipe = ref false in
-  (* freshness (C17-F4): ids delivered so far, on the model's side and as observed on the implementation *)
+  (* freshness (C17-F4, fixed): ids delivered so far, on the model's side and as observed on the implementation *)
   let cons_model : BinNums.coq_Z list ref = ref [] and cons_impl : BinNums.coq_Z list ref = ref [] in
-  let pending_blk : (BinNums.coq_Z * bool) option ref = ref None in
+  let pending_blk : BinNums.coq_Z option ref = ref None in
   let sig_ = Buffer.create 256 in
   let end_case () =
     if !case <> "" then begin
@@ -39,7 +39,7 @@ let run (path : string) =
     incr step; incr steps;
     let g' = pghost !p !gs o in
     (match o with
-     | Block h -> pending_blk := Some (h, kf_C17_4 !p !cons_model o)
+     | Block h -> pending_blk := Some h
      | _ -> pending_blk := None);
     cons_model := pconsumed !p !cons_model o;
     (match pstep !p o with
@@ -121,12 +121,12 @@ let run (path : string) =
         (* freshness of what this block delivered, judged on the implementation's records (the results
            themselves are inputs: taken from the trace) *)
         (match !pending_blk with
-         | Some (h, kf) ->
+         | Some h ->
            pending_blk := None;
            let d = delivered_id h { impl with b_results = !p.p_band.b_results } in
            (match d with Some _ -> bump "band:delivery" | None -> ());
            if not (holds_C17_fresh !cons_impl d) then
-             predfail ~case:!case ~step:!step ~pred:"fresh_samples" ~kf:(if kf then "kf_C17_4" else "none")
+             predfail ~case:!case ~step:!step ~pred:"fresh_samples" ~kf:"none"
                ~detail:("result_of_request_" ^ (match d with Some r -> string_of_z r | None -> "-") ^
                         "_delivered_again_at_height_" ^ string_of_z h);
            cons_impl := consume !cons_impl d
